@@ -317,16 +317,20 @@ fn blocks_of(frames: &[wire::Frame]) -> Vec<Vec<u8>> {
     let mut out: Vec<Vec<u8>> = vec![];
     let mut open = false;
     for f in frames {
-        let a = abstract_of(f);
         match f.ty {
             wire::HEADERS | wire::PUSH_PROMISE => {
-                out.push(bytes_of(&a["frag"]));
-                open = !(f.flags & 4 != 0);
+                let mut q = match unpad(f.flags & 8 != 0, &f.payload) {
+                    Ok((_, q)) => q,
+                    Err(_) => &[][..],
+                };
+                let skip = if f.ty == wire::PUSH_PROMISE { 4 } else if f.flags & 0x20 != 0 { 5 } else { 0 };
+                q = if q.len() >= skip { &q[skip..] } else { &[][..] };
+                out.push(q.to_vec());
+                open = f.flags & 4 == 0;
             }
             wire::CONTINUATION if open => {
-                let fr = bytes_of(&a["frag"]);
-                out.last_mut().unwrap().extend_from_slice(&fr);
-                open = !(f.flags & 4 != 0);
+                out.last_mut().unwrap().extend_from_slice(&f.payload);
+                open = f.flags & 4 == 0;
             }
             _ => {}
         }
@@ -480,7 +484,7 @@ fn logical_of(f: Frame<Bytes>, big: Option<&dyn Fn(&str, u32, &[u8], &[(Vec<u8>,
             let pad: Value = if d.is_padded() {
                 match dbg_num(&dbg, "pad_len:") {
                     Some(n) => json!(n),
-                    None => json!("unobs"),
+                    None => json!(-3),
                 }
             } else {
                 json!(-1)
@@ -497,9 +501,9 @@ fn logical_of(f: Frame<Bytes>, big: Option<&dyn Fn(&str, u32, &[u8], &[(Vec<u8>,
             let sid: u32 = h.stream_id().into();
             let es = h.is_end_stream();
             let prio = if dbg.contains("stream_dep") {
-                dbg_dep(&dbg).unwrap_or(json!("unobs"))
+                dbg_dep(&dbg).unwrap_or(json!([-3]))
             } else if dbg.contains("PRIORITY") {
-                json!("unobs")
+                json!([-3])
             } else {
                 json!([])
             };
@@ -513,8 +517,8 @@ fn logical_of(f: Frame<Bytes>, big: Option<&dyn Fn(&str, u32, &[u8], &[(Vec<u8>,
             o
         }
         Frame::Priority(_) => {
-            let sid = dbg_num(&dbg, "stream_id:").map(|v| b4(v as u32)).unwrap_or(json!("unobs"));
-            json!({"type": "PRIORITY", "sid": sid, "prio": dbg_dep(&dbg).unwrap_or(json!("unobs"))})
+            let sid = dbg_num(&dbg, "stream_id:").map(|v| b4(v as u32)).unwrap_or(json!([-3]));
+            json!({"type": "PRIORITY", "sid": sid, "prio": dbg_dep(&dbg).unwrap_or(json!([-3]))})
         }
         Frame::PushPromise(p) => {
             let sid: u32 = p.stream_id().into();
@@ -604,6 +608,17 @@ fn run_read(
     max_recv: Option<usize>,
     big: Option<&dyn Fn(&str, u32, &[u8], &[(Vec<u8>, Vec<u8>)]) -> Value>,
 ) -> ReadOut {
+    match std::panic::catch_unwind(std::panic::AssertUnwindSafe(|| run_read_(bytes, script, max_recv, big))) {
+        Ok(r) => r,
+        Err(_) => ReadOut { items: vec![], end: json!("panic"), consumed_at_end: 0, rcalls: 0, max_read_cap: 0 },
+    }
+}
+fn run_read_(
+    bytes: &[u8],
+    script: &[Step],
+    max_recv: Option<usize>,
+    big: Option<&dyn Fn(&str, u32, &[u8], &[(Vec<u8>, Vec<u8>)]) -> Value>,
+) -> ReadOut {
     let mut io = ScriptIo::new(false);
     io.rdata = bytes.to_vec();
     io.rscript = script.iter().cloned().collect();
@@ -634,6 +649,12 @@ fn run_read(
 
 /// Send one frame through a fresh codec under a write script; flush to completion.
 fn run_write_one(f: Frame<Bytes>, script: &[Step], vectored: bool) -> Result<Vec<u8>, String> {
+    match std::panic::catch_unwind(std::panic::AssertUnwindSafe(|| run_write_one_(f, script, vectored))) {
+        Ok(r) => r,
+        Err(p) => Err(format!("panic: {}", panic_msg(&p))),
+    }
+}
+fn run_write_one_(f: Frame<Bytes>, script: &[Step], vectored: bool) -> Result<Vec<u8>, String> {
     let mut io = ScriptIo::new(vectored);
     io.wscript = script.iter().cloned().collect();
     let mut codec: C = Codec::new(io);
@@ -741,7 +762,9 @@ fn mode_vectors(inp: &str, outp: &str) {
             ];
             for (sc, vect, name) in scripts {
                 execs += 1;
-                let res = build_h2(&frames[0]).and_then(|f| run_write_one(f, &sc, vect));
+                let built = std::panic::catch_unwind(std::panic::AssertUnwindSafe(|| build_h2(&frames[0])))
+                    .unwrap_or_else(|p| Err(format!("panic: {}", panic_msg(&p))));
+                let res = built.and_then(|f| run_write_one(f, &sc, vect));
                 let v = match res {
                     Err(e) => json!({"err": e, "bytes": [], "parsed": [], "fields": []}),
                     Ok(bytes) => {
@@ -769,7 +792,7 @@ fn mode_vectors(inp: &str, outp: &str) {
             execs += 1;
             let o = run_read(&refbytes, &sc, None, None);
             let ex: Vec<Value> = sc.iter().take(6).map(step_json).collect();
-            r.add(json!({"items": o.items, "end": o.end, "left": refbytes.len() - o.consumed_at_end}), Value::Array(ex));
+            r.add(json!({"items": o.items, "end": end_rec(&o.end)}), Value::Array(ex));
         }
         let rec = json!({"t": "vec", "id": i + 1, "frames": frames, "refbytes": c["bytes"], "buildable": c["buildable"],
                          "exact": c["exact"], "w": w.json(), "r": r.json(), "chunkings": nscripts});
@@ -779,6 +802,481 @@ fn mode_vectors(inp: &str, outp: &str) {
     println!("SUMMARY mode=vectors cases={} executions={}", cases.len(), execs);
 }
 
+// ------------------------------------------------------------------------------------------------
+// io mode: staging / chunking cases at real scale
+
+fn pat(i: usize, off: usize) -> u8 {
+    ((i * 131 + off * 7 + (off >> 8) * 13 + (off >> 16) * 101) & 0xff) as u8
+}
+thread_local! {
+    static PATS: std::cell::RefCell<std::collections::HashMap<usize, Bytes>> = Default::default();
+}
+/// first n octets of the position-dependent fill pattern of item i (cached)
+fn pat_bytes(i: usize, n: usize) -> Bytes {
+    PATS.with(|p| {
+        let mut p = p.borrow_mut();
+        let have = p.get(&i).map(|b| b.len()).unwrap_or(0);
+        if have < n || have == 0 {
+            let len = n.max(4096).next_power_of_two();
+            let v: Vec<u8> = (0..len).map(|o| pat(i, o)).collect();
+            p.insert(i, Bytes::from(v));
+        }
+        p.get(&i).unwrap().slice(..n)
+    })
+}
+fn pat_ok(i: usize, data: &[u8]) -> bool {
+    pat_bytes(i, data.len())[..] == *data
+}
+
+#[derive(Clone)]
+struct Item {
+    k: String,
+    n: usize,
+    i: usize, // 1-based index
+    sid: u32,
+    es: bool,
+    fields: Vec<(Vec<u8>, Vec<u8>)>, // hdr / pp
+    blk: i64,                        // measured block length (hdr / pp), -1 otherwise
+}
+
+fn item_frame(it: &Item) -> Frame<Bytes> {
+    match it.k.as_str() {
+        "data" => {
+            let mut d = frame::Data::new(StreamId::from(it.sid), pat_bytes(it.i, it.n));
+            d.set_end_stream(it.es);
+            d.into()
+        }
+        "ctl" => frame::Ping::new([it.i as u8; 8]).into(),
+        "hdr" | "pp" => {
+            let mut map = http::HeaderMap::new();
+            for (n, v) in &it.fields {
+                let mut val = http::header::HeaderValue::from_bytes(v).unwrap();
+                val.set_sensitive(true);
+                map.append(http::header::HeaderName::from_bytes(n).unwrap(), val);
+            }
+            if it.k == "hdr" {
+                let mut h = frame::Headers::new(StreamId::from(it.sid), frame::Pseudo::default(), map);
+                if it.es {
+                    h.set_end_stream();
+                }
+                h.into()
+            } else {
+                frame::PushPromise::new(StreamId::from(it.sid), StreamId::from(it.sid + 1), frame::Pseudo::default(), map).into()
+            }
+        }
+        k => panic!("item kind {k}"),
+    }
+}
+
+fn flush_all(codec: &mut C, cx: &mut Context<'_>) -> Result<(), String> {
+    for _ in 0..1_000_000 {
+        match codec.flush(cx) {
+            Poll::Pending => continue,
+            Poll::Ready(Ok(())) => return Ok(()),
+            Poll::Ready(Err(e)) => return Err(format!("{:?}", e.kind())),
+        }
+    }
+    Err("flush does not terminate".into())
+}
+
+/// header block length h2 produces for `cand` after the header items in `prev` (same encoder state)
+fn measure_block(prev: &[Item], cand: &Item) -> usize {
+    let io = ScriptIo::new(false);
+    let mut codec: C = Codec::new(io);
+    codec.set_max_send_frame_size((1 << 24) - 1);
+    let waker = noop_waker();
+    let mut cx = Context::from_waker(&waker);
+    for p in prev.iter().filter(|p| p.k == "hdr" || p.k == "pp") {
+        codec.buffer(item_frame(p)).unwrap();
+        flush_all(&mut codec, &mut cx).unwrap();
+    }
+    codec.get_mut().written.clear();
+    codec.buffer(item_frame(cand)).unwrap();
+    flush_all(&mut codec, &mut cx).unwrap();
+    let raw = Splitter::new(false).push(&codec.get_ref().written);
+    blocks_of(&raw).iter().map(|b| b.len()).sum()
+}
+
+/// choose sensitive filler fields so that the encoded header block has exactly `n` octets
+fn size_fields(prev: &[Item], it: &mut Item) {
+    let target = it.n;
+    let mk = |la: usize, lb: Option<usize>| -> Vec<(Vec<u8>, Vec<u8>)> {
+        let mut f = vec![(b"x-a".to_vec(), vec![b'X'; la])];
+        if let Some(lb) = lb {
+            f.push((b"x-b".to_vec(), vec![b'X'; lb]));
+        }
+        f
+    };
+    for lb in [None, Some(1usize), Some(2), Some(3)] {
+        let mut la = target.saturating_sub(6).max(1);
+        for _ in 0..6 {
+            it.fields = mk(la, lb);
+            let got = measure_block(prev, it);
+            if got == target {
+                it.blk = got as i64;
+                return;
+            }
+            let nl = la as i64 + target as i64 - got as i64;
+            if nl < 1 {
+                break;
+            }
+            la = nl as usize;
+        }
+    }
+    // not reachable exactly (tiny targets): keep the closest, report the real length
+    it.blk = measure_block(prev, it) as i64;
+}
+
+fn make_items(spec: &Value) -> Vec<Item> {
+    let mut out: Vec<Item> = vec![];
+    for (j, v) in spec.as_array().unwrap().iter().enumerate() {
+        let i = j + 1;
+        let mut it = Item {
+            k: v["k"].as_str().unwrap().to_string(),
+            n: v["n"].as_u64().unwrap() as usize,
+            i,
+            sid: (2 * i - 1) as u32,
+            es: i % 2 == 0,
+            fields: vec![],
+            blk: -1,
+        };
+        if it.k == "hdr" || it.k == "pp" {
+            size_fields(&out, &mut it);
+        }
+        out.push(it);
+    }
+    out
+}
+
+fn poll_name<T: std::fmt::Debug>(p: &Poll<io::Result<T>>) -> String {
+    match p {
+        Poll::Pending => "pending".into(),
+        Poll::Ready(Ok(_)) => "ready".into(),
+        Poll::Ready(Err(e)) => format!("{:?}", e.kind()),
+    }
+}
+
+type Memo = std::collections::HashMap<Vec<u8>, Vec<(Vec<u8>, Vec<u8>)>>;
+
+/// reference decode, memoised while the dynamic table is (and stays) empty -- the reference Huffman
+/// decoder is a deliberately simple bit walk and the same large blocks recur across schedules
+fn ref_decode(table: &mut RefTable, memo: &mut Memo, block: &[u8]) -> Option<Vec<(Vec<u8>, Vec<u8>)>> {
+    if table.entries.is_empty() && table.max == 4096 {
+        if let Some(f) = memo.get(block) {
+            return Some(f.clone());
+        }
+        let r = table.decode(block).ok()?;
+        if table.entries.is_empty() && table.max == 4096 {
+            memo.insert(block.to_vec(), r.clone());
+        }
+        return Some(r);
+    }
+    table.decode(block).ok()
+}
+
+fn sum_raw(raw: &[wire::Frame], items: &[Item], memo: &mut Memo) -> Vec<Value> {
+    // content check against the items, by stream id (sid = 2i-1); header blocks decoded with the
+    // independent RFC 7541 reference (one table per connection)
+    let mut table = RefTable::new(4096);
+    let mut block: Vec<u8> = vec![];
+    let mut out = vec![];
+    for f in raw {
+        let item = if f.ty == wire::PING {
+            f.payload.first().and_then(|b| items.get((*b as usize).wrapping_sub(1)))
+        } else {
+            items.get(((f.sid as usize + 1) / 2).wrapping_sub(1))
+        };
+        // h2 never pads or prioritises what it sends: PADDED / PRIORITY flags make the frame "not ok"
+        let plain = f.flags & 0x28 == 0;
+        let ok = match (f.ty, item) {
+            (wire::DATA, Some(it)) => plain && pat_ok(it.i, &f.payload),
+            (wire::PING, Some(it)) => f.payload == vec![it.i as u8; 8],
+            (wire::HEADERS, Some(it)) | (wire::PUSH_PROMISE, Some(it)) | (wire::CONTINUATION, Some(it)) => {
+                let mut frag = &f.payload[..];
+                let mut okp = plain || f.ty == wire::CONTINUATION;
+                if f.ty != wire::CONTINUATION {
+                    block.clear();
+                }
+                if f.ty == wire::PUSH_PROMISE {
+                    if frag.len() >= 4 {
+                        okp = okp && frag[..4] == (it.sid + 1).to_be_bytes();
+                        frag = &frag[4..];
+                    } else {
+                        okp = false;
+                    }
+                }
+                block.extend_from_slice(frag);
+                if f.flags & 4 != 0 {
+                    let r = ref_decode(&mut table, memo, &block).map(|fl| fl == it.fields).unwrap_or(false);
+                    block.clear();
+                    r && okp
+                } else {
+                    okp
+                }
+            }
+            _ => false,
+        };
+        let mut o = json!({"ty": f.ty, "fl": f.flags, "r": if f.rbit { 1 } else { 0 }, "sid": b4(f.sid), "len": f.payload.len(), "ok": ok});
+        if f.ty == wire::PING {
+            o["i"] = json!(f.payload.first().cloned().unwrap_or(0));
+        }
+        out.push(o);
+    }
+    out
+}
+
+fn mode_io(inp: &str, outp: &str) {
+    let cases = read_lines(inp);
+    let mut out = io::BufWriter::new(std::fs::File::create(outp).unwrap());
+    let waker = noop_waker();
+    let mut cx = Context::from_waker(&waker);
+    let mut items_cache: std::collections::HashMap<String, Vec<Item>> = Default::default();
+    let mut plain_cache: std::collections::HashMap<String, Vec<u8>> = Default::default();
+    let mut memo: Memo = Default::default();
+    let mut do_case = |c: &Value| -> Value {
+        let vectored = c["vectored"].as_bool().unwrap();
+        let max_send = c["max_send"].as_u64().unwrap() as usize;
+        let max_recv = c["max_recv"].as_u64().unwrap() as usize;
+        let ikey = c["items"].to_string();
+        let items = items_cache.entry(ikey.clone()).or_insert_with(|| make_items(&c["items"])).clone();
+        let mut io_ = ScriptIo::new(vectored);
+        io_.wscript.clear();
+        let mut codec: C = Codec::new(io_);
+        codec.set_max_send_frame_size(max_send);
+        let hist: Vec<Value> = c["hist"].as_array().cloned().unwrap_or_default();
+        let mut staged: Vec<Value> = vec![];
+        let mut flushes: Vec<Value> = vec![];
+        let mut ready: Vec<Value> = vec![];
+        let mut rscript: Vec<Step> = vec![];
+        let mut next_item = 0usize;
+        let mut stage = |codec: &mut C, cx: &mut Context<'_>, ready: &mut Vec<Value>, staged: &mut Vec<Value>, it: &Item| {
+            let mut tries = 0;
+            loop {
+                let p = codec.poll_ready(cx);
+                ready.push(json!(poll_name(&p)));
+                match p {
+                    Poll::Ready(Ok(())) => break,
+                    Poll::Ready(Err(_)) => {
+                        tries += 1;
+                        if tries > 4 {
+                            staged.push(json!("poll_ready_error"));
+                            return;
+                        }
+                    }
+                    Poll::Pending => {
+                        tries += 1;
+                        if tries > 1_000_000 {
+                            staged.push(json!("poll_ready_stuck"));
+                            return;
+                        }
+                    }
+                }
+            }
+            match codec.buffer(item_frame(it)) {
+                Ok(()) => staged.push(json!("ok")),
+                Err(e) => staged.push(json!(format!("{e:?}"))),
+            }
+        };
+        let mut h = 0;
+        while h < hist.len() {
+            let e = &hist[h];
+            let tag = e[0].as_str().unwrap();
+            match tag {
+                "B" => {
+                    if next_item < items.len() {
+                        let it = items[next_item].clone();
+                        next_item += 1;
+                        stage(&mut codec, &mut cx, &mut ready, &mut staged, &it);
+                    }
+                    h += 1;
+                }
+                "F" => {
+                    h += 1;
+                    let mut sc = VecDeque::new();
+                    while h < hist.len() && hist[h][0] == json!("w") {
+                        let o = hist[h][1].as_i64().unwrap();
+                        let k = hist[h][2].as_i64().unwrap();
+                        sc.push_back(if k < 0 {
+                            Step::Pending
+                        } else if k == 0 {
+                            Step::Zero
+                        } else if k >= o {
+                            Step::All
+                        } else {
+                            Step::N(k as usize)
+                        });
+                        h += 1;
+                    }
+                    codec.get_mut().wscript = sc;
+                    let p = codec.flush(&mut cx);
+                    flushes.push(json!(poll_name(&p)));
+                    codec.get_mut().wscript.clear();
+                }
+                "r" => {
+                    let n = e[1].as_i64().unwrap();
+                    rscript.push(if n < 0 { Step::Pending } else { Step::N(n as usize) });
+                    h += 1;
+                }
+                _ => {
+                    h += 1;
+                }
+            }
+        }
+        let replay_calls = codec.get_ref().wcalls.clone();
+        // drain: stage what is left, flush with a transport that accepts everything
+        while next_item < items.len() {
+            let it = items[next_item].clone();
+            next_item += 1;
+            stage(&mut codec, &mut cx, &mut ready, &mut staged, &it);
+        }
+        let drain = match flush_all(&mut codec, &mut cx) {
+            Ok(()) => "ready".to_string(),
+            Err(e) => e,
+        };
+        let written = std::mem::take(&mut codec.get_mut().written);
+        let mut sp = Splitter::new(false);
+        let raw = sp.push(&written);
+        let wire_sum = sum_raw(&raw, &items, &mut memo);
+        // metamorphic reference: same items, one buffer+flush each, transport accepts everything
+        let pkey = format!("{ikey}/{max_send}");
+        let plain = plain_cache.entry(pkey).or_insert_with(|| {
+            let mut c2: C = Codec::new(ScriptIo::new(false));
+            c2.set_max_send_frame_size(max_send);
+            for it in &items {
+                if c2.buffer(item_frame(it)).is_ok() {
+                    let _ = flush_all(&mut c2, &mut cx);
+                }
+            }
+            std::mem::take(&mut c2.get_mut().written)
+        });
+        let same_as_plain = *plain == written;
+        // ---- Stream side over the captured octets
+        let items_ref = &items;
+        let summ = |ty: &str, sid: u32, data: &[u8], fl: &[(Vec<u8>, Vec<u8>)]| -> Value {
+            let it = items_ref.get(((sid as usize + 1) / 2).wrapping_sub(1));
+            match (ty, it) {
+                ("DATA", Some(it)) => json!({"len": data.len(), "ok": pat_ok(it.i, data)}),
+                (_, Some(it)) => json!({"len": -1, "ok": fl == &it.fields[..]}),
+                _ => json!({"len": -1, "ok": false}),
+            }
+        };
+        let ro = run_read(&written, &rscript, Some(max_recv), Some(&summ));
+        let ritems: Vec<Value> = ro
+            .items
+            .into_iter()
+            .map(|mut v| {
+                if v["type"] == json!("PING") {
+                    let pl = bytes_of(&v["opaque"]);
+                    let ok = pl.first().map(|b| pl == vec![*b; 8] && (*b as usize) >= 1 && (*b as usize) <= items.len() && items[*b as usize - 1].k == "ctl").unwrap_or(false);
+                    v["sum"] = json!({"len": 8, "ok": ok});
+                    v["i"] = json!(pl.first().cloned().unwrap_or(0));
+                }
+                v
+            })
+            .collect();
+        let its: Vec<Value> = items
+            .iter()
+            .map(|it| json!({"k": it.k, "n": it.n, "sid": b4(it.sid), "es": it.es, "blk": it.blk, "i": it.i}))
+            .collect();
+        let calls: Vec<Value> = replay_calls.iter().map(|(o, k)| json!([o, k])).collect();
+        let rec = json!({
+            "t": "io", "id": c["id"], "src": c["src"],
+            "cfg": {"vectored": vectored, "max_send": max_send, "max_recv": max_recv},
+            "items": its, "hist": hist, "model": c["model"],
+            "staged": staged, "flushes": flushes, "drain": drain, "wcalls": calls,
+            "wire": wire_sum, "trailing": sp.pending(), "wire_len": written.len(), "same_as_plain": same_as_plain,
+            "read": {"items": ritems, "end": end_rec(&ro.end), "consumed": ro.consumed_at_end, "rcalls": ro.rcalls, "max_read_cap": ro.max_read_cap},
+        });
+        rec
+    };
+    for c in &cases {
+        let rec = match std::panic::catch_unwind(std::panic::AssertUnwindSafe(|| do_case(c))) {
+            Ok(r) => r,
+            Err(p) => {
+                // a panic inside h2 on a legal input: recorded, judged by the trace spec (nothing was serialised / parsed)
+                let its: Vec<Value> = c["items"]
+                    .as_array()
+                    .unwrap()
+                    .iter()
+                    .enumerate()
+                    .map(|(j, v)| json!({"k": v["k"], "n": v["n"], "sid": b4((2 * j + 1) as u32), "es": (j + 1) % 2 == 0, "blk": -1, "i": j + 1}))
+                    .collect();
+                let staged: Vec<Value> = its.iter().map(|_| json!("ok")).collect();
+                json!({
+                    "t": "io", "id": c["id"], "src": c["src"],
+                    "cfg": {"vectored": c["vectored"], "max_send": c["max_send"], "max_recv": c["max_recv"]},
+                    "items": its, "hist": c["hist"], "model": c["model"],
+                    "staged": staged, "flushes": [], "drain": format!("panic: {}", panic_msg(&p)), "wcalls": [],
+                    "wire": [], "trailing": 0, "wire_len": 0, "same_as_plain": false,
+                    "read": {"items": [], "end": {"k": "panic"}, "consumed": 0, "rcalls": 0, "max_read_cap": 0},
+                })
+            }
+        };
+        writeln!(out, "{rec}").unwrap();
+    }
+    out.flush().unwrap();
+    println!("SUMMARY mode=io cases={} executions={}", cases.len(), cases.len() * 2);
+}
+
+fn panic_msg(p: &Box<dyn std::any::Any + Send>) -> String {
+    if let Some(s) = p.downcast_ref::<&str>() {
+        s.to_string()
+    } else if let Some(s) = p.downcast_ref::<String>() {
+        s.clone()
+    } else {
+        "?".into()
+    }
+}
+
+fn end_rec(e: &Value) -> Value {
+    match e {
+        Value::String(s) => json!({"k": s}),
+        o => json!({"k": "err", "err": o["err"]}),
+    }
+}
+
+// ------------------------------------------------------------------------------------------------
+// oversize mode: a frame whose declared length exceeds the configured max recv frame size.
+// case: {"id", "max_recv", "prefix": [n1, n2..] (DATA frames of those sizes sent first), "ty", "L" (declared),
+//        "supply" (payload octets actually available), "script": [...]}
+
+fn mode_oversize(inp: &str, outp: &str) {
+    let cases = read_lines(inp);
+    let mut out = io::BufWriter::new(std::fs::File::create(outp).unwrap());
+    for c in &cases {
+        let max_recv = c["max_recv"].as_u64().unwrap() as usize;
+        let declared = c["L"].as_u64().unwrap() as usize;
+        let supply = c["supply"].as_u64().unwrap() as usize;
+        let ty = c["ty"].as_u64().unwrap() as u8;
+        let mut bytes = vec![];
+        let mut npre = 0;
+        for (j, n) in c["prefix"].as_array().unwrap().iter().enumerate() {
+            let n = n.as_u64().unwrap() as usize;
+            let v = pat_bytes(j + 1, n);
+            bytes.extend_from_slice(&wire::f_data((2 * j + 1) as u32, &v, false, None).ser());
+            npre += 1;
+        }
+        let x = bytes.len();
+        let sid: u32 = if ty == wire::SETTINGS || ty == wire::PING || ty == wire::GOAWAY { 0 } else { (2 * npre + 1) as u32 };
+        let fl: u8 = if ty == wire::HEADERS || ty == wire::CONTINUATION || ty == wire::PUSH_PROMISE { 4 } else { 0 };
+        let mut fr = wire::Frame::new(ty, fl, sid, vec![]).ser_with_len(declared);
+        fr.extend_from_slice(&pat_bytes(npre + 1, supply));
+        bytes.extend_from_slice(&fr);
+        let script: Vec<Step> = c["script"].as_array().unwrap().iter().map(step_of).collect();
+        let summ = |_: &str, sid: u32, data: &[u8], _: &[(Vec<u8>, Vec<u8>)]| -> Value {
+            json!({"len": data.len(), "ok": pat_ok(((sid + 1) / 2) as usize, data)})
+        };
+        let ro = run_read(&bytes, &script, Some(max_recv), Some(&summ));
+        let rec = json!({"t": "oversize", "id": c["id"], "max_recv": max_recv, "L": declared, "supply": supply, "ty": ty,
+                         "prefix": c["prefix"], "npre": npre, "x": x, "total": bytes.len(), "script": c["script"],
+                         "items": ro.items, "end": end_rec(&ro.end), "consumed": ro.consumed_at_end, "rcalls": ro.rcalls,
+                         "max_read_cap": ro.max_read_cap});
+        writeln!(out, "{rec}").unwrap();
+    }
+    out.flush().unwrap();
+    println!("SUMMARY mode=oversize cases={} executions={}", cases.len(), cases.len());
+}
+
 fn main() {
     let args: Vec<String> = std::env::args().collect();
     if args.len() < 4 {
@@ -786,8 +1284,11 @@ fn main() {
         std::process::exit(2);
     }
     let _ = Map::<String, Value>::new();
+    std::panic::set_hook(Box::new(|_| {})); // panics inside h2 are caught per case and recorded
     match args[1].as_str() {
         "vectors" => mode_vectors(&args[2], &args[3]),
+        "io" => mode_io(&args[2], &args[3]),
+        "oversize" => mode_oversize(&args[2], &args[3]),
         m => {
             eprintln!("unknown mode {m}");
             std::process::exit(2);
